@@ -207,6 +207,7 @@ func main() {
 	ww := flag.Int("ww", 1, "kafka.Writer path cases (ww): 0 none, 1 all ordered pairs of nil/empty/non-empty keys and values + 30 longer batches, 2 + 300")
 	fs := flag.Int("fs", 1, "frame sweep (wf + wp cases): record batch headers across 64 KiB page boundaries in Produce requests / Fetch responses: 0 none, 1 quick, 2 also two-page offsets for every alignment")
 	vi := flag.Int("vi", 1, "varint-boundary writer cases (record counts 63..8193, timestamp deltas, lengths, header counts): 0 none, 1 quick, 2 every codec variant")
+	av := flag.Int("av", 1, "negotiated API version sweep: Client.Produce / Writer at every Produce version (wv) and Client.Fetch at every Fetch version (rd, tag clientfetch) through a wire-level fake broker: 0 none, 1 quick, 2 more cases per version")
 	flag.StringVar(&only, "only", "", "print only the cases of this op (wp, wl, wc, rd, pg, pgc)")
 	flag.Parse()
 	r := rand.New(rand.NewSource(*seed))
@@ -222,4 +223,6 @@ func main() {
 	writerPathCases(r, *ww)
 	frameSweep(r, *fs)
 	varintCases(r, *vi)
+	produceVersionCases(r, *av)
+	fetchVersionCases(r, *av)
 }
